@@ -965,7 +965,7 @@ class Body:
             return s + 3
         if not ptr and tstr2.startswith('const ') and not decl_c.startswith('const '):
             decl_c = 'const ' + decl_c
-        if decl_c.startswith('__typeof__('):
+        if '__typeof__(' in decl_c:
             dtoks = ([T('id', 'static'), T('ws', ' ')] if static else []) + tokenize(decl_c)
         else:
             dtoks = [T('id', static + decl_c)]
@@ -1667,6 +1667,10 @@ def extract_function(fn, unit, repo, filecache, contracts):
         k_ = _vk(mt)
         if k_ and cls and not static: views.append((r'self->%s' % mn, k_))
     text = rewrite_views(text, views + late_views)
+    for rx_, rep_ in list(unit.get('text_subst', [])) + list(fn.get('text_subst', [])):
+        # R21: rare constructs with no token-level rule (a stream object in boolean context); every substitution is listed in the unit file
+        text, nts = re.subn(rx_, rep_, text)
+        if nts: body.fire('R21', nts)
     if '@@' in text:
         raise ExtractionBreak('unresolved marker in %s' % fn['cname'])
     for lname, lt in ctx['locals'].items():
